@@ -93,6 +93,9 @@ func runGeneric(r *Report, prop string) {
 		return
 	}
 	g := func(n int) string { return fmt.Sprintf("R-%s-G%d", prop, n) }
+	for _, n := range canonNotes {
+		r.Note("%s", n)
+	}
 	runLockOrder(r, prop, files)
 	nf, nLock, nErr, nNil := 0, 0, 0, 0
 	for _, f := range r.P.Funcs {
